@@ -1192,6 +1192,18 @@ class C18(Prop):
                 te = self.expand_zeros(g, tz)
                 out.append(show(['tree', tz, ['diff', te], ['graft', te], ['diff', self.expand_zeros(g, g.tree_write(tz))]]))
                 out.append(show(['tree', te, ['diff', tz], ['graft', tz]]))
+            if r.random() < 0.5:
+                # default-style trees whose pairs share ONE child object (subtree_fill_to_depth), nested, and a second
+                # tree derived from the first by writes (shares every untouched node object with it)
+                d1 = r.choice([1, 2, 3, 4])
+                bottom = r.choice([['L', g.chunk().hex()], ['Z', 0], ['F', r.choice([1, 2]), ['L', g.chunk().hex()]], g.tree(1, 0.3)])
+                a = ['F', d1, bottom]
+                if r.random() < 0.4:
+                    a = ['P', a, r.choice([['F', d1, bottom], ['L', g.chunk().hex()], a])]
+                depth = d1 + 3
+                ws = [['w', r.randint(1, (1 << r.randint(1, depth)) - 1), r.choice([0, 0, 1]), g.tree(r.choice([0, 0, 1]), 0.3)]
+                      for _ in range(r.choice([1, 1, 2, 4]))]
+                out.append(show(['tree', a, ['diffw'] + ws, ['leaves']]))
             if r.random() < 0.3:
                 tr = g.tree(r.choice([2, 3, 5]), 0.3)
                 out.append(show(['tree', tr, ['leaves'], ['diff', g.tree_write(tr)], ['graft', g.tree_write(tr)],
@@ -1226,6 +1238,16 @@ class C18(Prop):
         for i, c in enumerate(case[2:]):
             bump(stats, 'ops', c[0])
             p = '%d.' % i
+            if c[0] == 'diffw':
+                a, b = py.get(p + 'diffw'), mo.get(p + 'diffw')
+                if a != b:
+                    out.append(F('prop', 'diff against a tree derived by writes', a, b))
+                ga = py.get(p + 'graft')
+                if ga != py.get(p + 'target') or ga != mo.get(p + 'graft'):
+                    out.append(F('prop', 'grafting the diff does not give the second root', ga, py.get(p + 'target')))
+                if mo.get(p + 'graft') != mo.get(p + 'target'):
+                    out.append(F('model', 'graft law', mo.get(p + 'graft'), mo.get(p + 'target')))
+                continue
             for key in ('hist', 'diff', 'graft', 'leaves'):
                 if c[0] == key:
                     a, b = py.get(p + key), mo.get(p + key)
@@ -1557,6 +1579,8 @@ class C17(Prop):
             for o in hist:
                 if r.random() < 0.4:
                     ops.append(r.choice([['read'], ['len'], ['bytes'], ['root'], ['elem', r.randint(0, 6)], ['elem', r.randint(0, 40)]]))
+                if r.random() < 0.25 and kind(t) in ('list', 'vec', 'bl', 'bv'):
+                    ops.append(['slice', r.randint(0, 40), r.randint(0, 40)])
                 ops.append(o)
             ops.append(r.choice([['read'], ['bytes'], ['root']]))
             out.append(show(['partial', t, v, pos] + ops))
@@ -1574,6 +1598,42 @@ class C17(Prop):
                         gi = (2 << _get_depth(t[2])) | i
                     ops2 = [['elem', i], ['set', i, v[1 + i]], ['elem', i], ['read'], ['bytes'], ['root']]
                     out.append(show(['partial', t, v, ['pos', gi]] + ops2))
+        # packed / bit sequences of four and more chunks with whole chunk subtrees summarised: element and
+        # slice reads before, inside and after the excluded range
+        for _ in range(self.n(tier) // 4):
+            c = r.randrange(6)
+            if c == 0:
+                t = ['bl', r.choice([1024, 1025, 2048, 5000])]
+                v = g.bits(r.choice([513, 600, 768, 769, 1000, 1024]))
+            elif c == 1:
+                t = ['bv', r.choice([1024, 1000, 769])]
+                v = g.bits(t[1])
+            elif c == 2:
+                e = r.choice(['u64', 'u16', 'u128', 'u8', 'bool', 'u256'])
+                per = 32 // UINT_W.get(e, 1)
+                t = ['list', e, per * r.choice([8, 16, 17])]
+                v = ['s'] + [g.val(e, 1) for _ in range(per * r.choice([3, 4, 5, 7]) + r.choice([0, 0, 1, per - 1]))]
+            elif c == 3:
+                e = r.choice(['u64', 'u16', 'u8', 'bool'])
+                per = 32 // UINT_W.get(e, 1)
+                n = per * r.choice([4, 5, 8]) + r.choice([0, 1])
+                t = ['vec', e, n]
+                v = ['s'] + [g.val(e, 1) for _ in range(n)]
+            elif c == 4:
+                t = ['list', ['cont', 'u8', 'u16'], 16]
+                v = ['s'] + [g.val(t[1], 2) for _ in range(r.choice([5, 8, 9, 16]))]
+            else:
+                inner = ['bl', 1024]
+                t = ['cont', 'u8', inner, ['list', 'u64', 32]]
+                v = ['s', '7', g.bits(r.choice([600, 1000])), ['s'] + [g.val('u64', 1) for _ in range(r.choice([9, 16, 20]))]]
+            cand = [x for x in positions(t, v) if x > 1]
+            pos = ['pos'] + [r.choice(cand) if cand and r.random() < 0.8 else r.randint(2, 31) for _ in range(r.choice([1, 1, 2]))]
+            n = len(v) - 1
+            ops = []
+            for _ in range(r.choice([3, 6])):
+                ops.append(r.choice([['slice', r.randint(0, n), r.randint(0, n)], ['slice', r.randint(0, n), r.randint(0, n)],
+                                     ['elem', r.randint(0, n)], ['len']]))
+            out.append(show(['partial', t, v, pos] + ops))
         return out
 
     def nontrivial(self, c):
